@@ -177,3 +177,15 @@ def parse_step_obs(chk, tag, states=range(0, 16), checks="none", callbacks=False
             seen.add(o.key)
             uniq.append(o)
     return uniq
+
+
+def pathname_obs(chk, tag):
+    """state 0, the item name is the shaped path key "c|X" (X symbolic) into the single section "c": looked up through
+    the path resolver, an unknown leaf is reported against the context being scanned"""
+    obs = []
+    for ctxf in (0, F["NOCASE"], F["IGNORE"]):
+        o = _ob(tag, chk, 0, "SEC", 1, ctxf, 0, extra=("PATHNAME",), ntok=3)
+        o.unwindset = [u for u in o.unwindset if not u.startswith("cfg_getopt_secidx")] + ["cfg_getopt_secidx.0:4", "cfg_getopt_secidx.1:4"]
+        o.params["item_name"] = "path key c|X"
+        obs.append(o)
+    return obs
